@@ -5,3 +5,4 @@ pub mod oracle;
 pub mod model;
 pub mod gen;
 pub mod props;
+pub mod fuzz;
